@@ -22,6 +22,12 @@ def scratch():
     global _scratch
     if _scratch is None:
         os.makedirs(SCRATCH_ROOT, exist_ok=True)
+        # leftovers of runs that were killed hard: anything older than 8 hours
+        now = time.time()
+        for n in os.listdir(SCRATCH_ROOT):
+            pth = os.path.join(SCRATCH_ROOT, n)
+            if n.startswith(('run-', 'mut-', 'out-', 'seedwt-')) and now - os.path.getmtime(pth) > 8 * 3600:
+                shutil.rmtree(pth, ignore_errors=True) if os.path.isdir(pth) else os.remove(pth)
         _scratch = tempfile.mkdtemp(prefix='run-', dir=SCRATCH_ROOT)
         atexit.register(lambda: shutil.rmtree(_scratch, ignore_errors=True))
         def _sig(signum, frame):
